@@ -94,7 +94,8 @@ PROBES = [
     'probe:array_eq', 'probe:map_range_key_only', 'probe:field_slice_syntax', 'probe:global_int64_init',
     'probe:loopvar_closure', 'probe:nil_map_zero_value', 'probe:range_invalid_utf8', 'probe:fallthrough',
     'probe:eval_order', 'probe:global_uint64_init', 'probe:iface_to_iface_assign', 'probe:nested_closure_capture', 'probe:string_order_invalid_utf8',
-    'probe:assert_fail_string_zero',
+    'probe:assert_fail_string_zero', 'probe:float_to_uint_high', 'probe:map_array_key',
+    'probe:method_expr',
 ]
 
 
@@ -209,6 +210,29 @@ func clampU(f float64) float64 {
 	}
 	if f < 0 {
 		return 0
+	}
+	return f
+}
+
+func clampS64(f float64) float64 {
+	if f != f {
+		return 0
+	}
+	if f > 9000000000000000000 {
+		return 9000000000000000000
+	}
+	if f < -9000000000000000000 {
+		return -9000000000000000000
+	}
+	return f
+}
+
+func clampP31(f float64) float64 {
+	if f != f || f < 0 {
+		return 0
+	}
+	if f > 2147483647 {
+		return 2147483647
 	}
 	return f
 }
@@ -565,8 +589,15 @@ class Gen(object):
         if k == 'fconv':
             a = self.nonconst(env, 'float64', self.float_expr(env, 'float64', depth - 1))
             self.feat.add('conv_float_int')
+            # float -> unsigned stays below 2^31 / 2^63: Wa truncates with the signed instruction (see FINDINGS)
             if t in ('uint8',):
                 return E(t, '%s(clampU({0}))' % t, [a])
+            if t == 'int64' and self.chance(0.5):
+                return E(t, 'int64(clampS64({0}))', [a])
+            if t == 'uint64' and self.chance(0.5):
+                return E(t, 'uint64(clampS64({0} * {0}))', [a])
+            if t in ('uint32', 'uint64') and self.chance(0.6):
+                return E(t, '%s(clampP31({0}))' % t, [a])
             if INT_T[t][1]:
                 return E(t, '%s(clampS({0}))' % t, [a])
             return E(t, '%s(clampU({0}) * float64(%s))' % (t, self.pick(['1.0', '2.5', '300.0'])), [a])
@@ -2058,11 +2089,20 @@ class Gen(object):
             st.append(S(['pcnt := 0', 'pinc := func(n int) int {', '\tpcnt += n', '\treturn pcnt', '}', 'pinc(2)', 'println("evalorder", pcnt, pinc(1))']))
         elif w == 'assert_fail_string_zero':
             st.append(S(['var pe interface{} = {0}', 'ps, pok := pe.(string)', 'println("assertstr", len(ps), pok, ps == "")'], [self.nonconst(env, 'uint8', self.leaf(env, 'uint8', True))]))
+        elif w == 'float_to_uint_high':
+            st.append(S(['pf := float64({0} % uint32(1000)) + 3e9', 'println("f2u32", uint32(pf))', 'println("f2u64", uint64(pf * 4e9))'],
+                        [self.nonconst(env, 'uint32', self.leaf(env, 'uint32', True))]))
+        elif w == 'map_array_key':
+            st.append(S(['pma := map[[2]int32]int32{}', 'pma[[2]int32{1, 2}] = {0}', 'pma[[2]int32{1, 2}]++', 'println("maparr", len(pma), pma[[2]int32{1, 2}])'], [self.expr(env, 'int32', 1)]))
+        elif w == 'method_expr':
+            tn = P.upper() + 'Me'
+            grp.decls.append((tn, 'type %s struct {\n\tv int32\n}\n\nfunc (m *%s) Plus(d int32) int32 {\n\treturn m.v + d\n}' % (tn, tn)))
+            st.append(S(['pmf := (*%s).Plus' % tn, 'pmm := &%s{{0}}' % tn, 'println("methodexpr", pmf(pmm, {1}))'], [self.expr(env, 'int32', 1), self.expr(env, 'int32', 1)]))
         elif w == 'iface_to_iface_assign':
             tn = P.upper()
             grp.decls.append((tn + 'ii', 'type %sBig interface {\n\tA() int32\n\tB() int32\n}\n\ntype %sSmall interface {\n\tB() int32\n}\n\n'
                               'type %sImp struct {\n\tv int32\n}\n\nfunc (p *%sImp) A() int32 {\n\treturn p.v\n}\n\nfunc (p *%sImp) B() int32 {\n\treturn p.v + 1\n}' % (tn, tn, tn, tn, tn)))
-            st.append(S(['var pbig %sBig = &%sImp{4}' % (tn, tn), 'var psmall %sSmall = pbig' % tn, 'println("ifaceassign", psmall.B())']))
+            st.append(S(['var pbig %sBig = &%sImp{v: 4}' % (tn, tn), 'var psmall %sSmall = pbig' % tn, 'println("ifaceassign", psmall.B())']))
         elif w == 'nested_closure_capture':
             st.append(S(['pmk := func(step int32) func() int32 {', '\tvar c int32', '\treturn func() int32 {', '\t\tc += step', '\t\treturn c', '\t}', '}',
                          'pa := pmk(2)', 'pr1 := pa()', 'pr2 := pa()', 'println("nestedclosure", pr1, pr2)']))
@@ -2363,7 +2403,10 @@ IDIOM_FEATURES = [
     'idiom_ptr_escape', 'idiom_swap_index', 'idiom_iota', 'idiom_untyped_const', 'idiom_anon_struct',
     'idiom_embedded_ptr', 'idiom_assert_fail_zero', 'idiom_copy_string_bytes', 'idiom_string_build_runes',
     'idiom_ptr_to_ptr', 'idiom_array_of_struct_range', 'idiom_multi_case_typeswitch', 'idiom_closure_over_field',
-    'idiom_linked_list', 'idiom_matrix_slices', 'idiom_bytes_compare',
+    'idiom_linked_list', 'idiom_matrix_slices', 'idiom_bytes_compare', 'idiom_nil_slice', 'idiom_iface_equality',
+    'idiom_map_of_maps', 'idiom_func_map', 'idiom_rune_parse', 'idiom_elem_method', 'idiom_embedded_iface',
+    'idiom_bare_return', 'idiom_slice_of_aggregates', 'idiom_label_break_switch', 'idiom_map_misc_keys',
+    'idiom_struct_conversion',
 ]
 FEATURES.extend(IDIOM_FEATURES)
 
@@ -2495,6 +2538,54 @@ def _g_idioms(self, grp, env):
         elif k == 'bytes_compare':
             st.append(S(['%sa, %sb := []byte({0}), []byte({1})' % (u, u), '%seq := len(%sa) == len(%sb)' % (u, u, u), 'for i := 0; %seq && i < len(%sa); i++ {' % (u, u), '\tif %sa[i] != %sb[i] {' % (u, u), '\t\t%seq = false' % u, '\t}', '}',
                          'println("byteseq", %seq, string(%sa) == string(%sb), {0} == {1})' % (u, u, u)], [self.leaf(env, 'string', True), self.leaf(env, 'string', True)]))
+        elif k == 'nil_slice':
+            st.append(S(['var %s []%s' % (u, t), 'println("nilslice", %s == nil, len(%s), cap(%s))' % (u, u, u), 'for range %s {' % u, '\tprintln("never")', '}', '%s = append(%s, {0})' % (u, u),
+                         '%sz := %s[:0]' % (u, u), 'println("nilslice", %s == nil, len(%s), %s[0], %sz == nil, len(%sz), len(append([]%s(nil), %s...)))' % (u, u, u, u, u, t, u)], [T()]))
+        elif k == 'iface_equality':
+            t2 = self.pick([x for x in INT_NAMES if x != t])
+            st.append(S(['var %sa, %sb interface{} = {0}, {0}' % (u, u), 'var %sc interface{} = %s({0})' % (u, t2), 'var %sd interface{} = "s"' % u, 'var %se interface{}' % u,
+                         'println("ifaceeq", %sa == %sb, %sa == %sc, %sa != %sd, %sd == "s", %se == nil, %sa == nil, %sa == {0})' % (u, u, u, u, u, u, u, u, u, u)], [self.nonconst(env, t, T())]))
+        elif k == 'map_of_maps':
+            st.append(S(['%s := map[string]map[%s]%s{}' % (u, t, t), '%s["a"] = map[%s]%s{}' % (u, t, t), '%s["a"][{0}] = {1}' % u, '%s["a"][{0}] += {2}' % u, '%s["b"] = %s["a"]' % (u, u), '%s["b"][{2}] = {0}' % u,
+                         'println("mapmap", len(%s), len(%s["a"]), %s["a"][{0}], len(%s["zz"]), %s["zz"][{0}])' % (u, u, u, u, u)], [T(), T(), T()]))
+        elif k == 'func_map':
+            st.append(S(['%s := map[string]func(%s) %s{' % (u, t, t), '\t"a": func(v %s) %s { return v + {0} },' % (t, t), '\t"b": func(v %s) %s { return v * {1} },' % (t, t), '}',
+                         '%sr1 := %s["a"]({2})' % (u, u), '%sr2 := %s["b"](%sr1)' % (u, u, u), 'println("funcmap", %sr1, %sr2, %s["zz"] == nil, len(%s))' % (u, u, u, u)], [T(), T(), T()]))
+        elif k == 'rune_parse':
+            st.append(S(['var %sn int64' % u, '%sl := 0' % u, 'for _, r := range {0} + "7x42" {', '\tif r >= \'0\' && r <= \'9\' {', '\t\t%sn = %sn*10 + int64(r-\'0\')' % (u, u), '\t} else if r > 127 {', '\t\t%sl += 2' % u, '\t} else {', '\t\t%sl++' % u, '\t}', '}',
+                         'println("runeparse", %sn, %sl)' % (u, u)], [self.leaf(env, 'string', True)]))
+        elif k == 'elem_method':
+            grp.decls.append((P + 'EM', 'type %sEl struct {\n\tv %s\n}\n\nfunc (e *%sEl) Bump(d %s) %s {\n\te.v = e.v*%s(3) + d\n\treturn e.v\n}' % (P, t, P, t, t, t)))
+            st.append(S(['%ss := []%sEl{{v: {0}}, {v: {1}}}' % (u, P), '%sa := [2]%sEl{{v: {1}}, {v: {2}}}' % (u, P), '%sm := map[string]*%sEl{"k": &%ss[0]}' % (u, P, u),
+                         '%sr1 := %ss[1].Bump({2})' % (u, u), '%sr2 := %sa[0].Bump({0})' % (u, u), '%sr3 := %sm["k"].Bump({1})' % (u, u),
+                         'println("elemmethod", %sr1, %sr2, %sr3, %ss[0].v, %ss[1].v, %sa[0].v, %sa[1].v)' % (u, u, u, u, u, u, u)], [T(), T(), T()]))
+        elif k == 'embedded_iface':
+            grp.decls.append((P + 'EI', 'type %sSayer interface {\n\tSay(k %s) %s\n}\n\ntype %sS1 struct {\n\tv %s\n}\n\nfunc (s *%sS1) Say(k %s) %s {\n\treturn s.v + k\n}\n\ntype %sHold struct {\n\t%sSayer\n\tn int32\n}'
+                              % (P, t, t, P, t, P, t, t, P, P)))
+            st.append(S(['%s := %sHold{&%sS1{v: {0}}, 2}' % (u, P, P), '%sc := %s' % (u, u), '%sc.%sSayer = &%sS1{v: {1}}' % (u, P, P),
+                         'println("embiface", %s.Say({2}), %sc.Say({2}), %s.%sSayer != nil, %sc.n)' % (u, u, u, P, u)], [T(), T(), T()]))
+        elif k == 'bare_return':
+            grp.decls.append((P + 'BR', 'func %sbare(a %s, f bool) (x, y %s, ok bool) {\n\tx = a + %s(1)\n\tif f {\n\t\ty = x * %s(2)\n\t\treturn\n\t}\n\tfor i := 0; i < 3; i++ {\n\t\ty += x\n\t\tif y > a {\n\t\t\tok = true\n\t\t\treturn\n\t\t}\n\t}\n\treturn y, x, false\n}' % (p, t, t, t, t)))
+            st.append(S(['%sx, %sy, %sk := %sbare({0}, {1})' % (u, u, u, p), 'println("bare", %sx, %sy, %sk)' % (u, u, u)], [T(), self.expr(env, 'bool', 1)]))
+        elif k == 'slice_of_aggregates':
+            grp.decls.append((P + 'SA', 'type %sRec struct {\n\tname string\n\tv %s\n\tok bool\n}' % (P, t)))
+            st.append(S(['%sr := make([]%sRec, 1, 2)' % (u, P), '%sr[0] = %sRec{"a", {0}, true}' % (u, P), '%sr2 := append(%sr, %sRec{"b", {1}, false})' % (u, u, P), '%sr3 := append(%sr, %sRec{name: "c"})' % (u, u, P),
+                         'for i := 0; i < 5; i++ {', '\t%sr3 = append(%sr3, %sRec{"g", %s(i) + {2}, i%%2 == 0})' % (u, u, P, t), '}', '%sr3[0].v++' % u,
+                         '%sss := []string{"x", {3}}' % u, 'for i := 0; i < 6; i++ {', '\t%sss = append(%sss, %sss[i]+"y")' % (u, u, u), '}',
+                         'println("aggr", %sr2[1].name, %sr[0].v, %sr3[0].v, %sr3[6].v, %sr3[5].ok, len(%sr3), len(%sss), %sss[7], hashStr(%sss[6]))' % (u, u, u, u, u, u, u, u, u)],
+                        [T(), T(), T(), self.leaf(env, 'string', True)]))
+        elif k == 'label_break_switch':
+            lb = self.fresh('LB')
+            st.append(S(['%sc := 0' % u, '%s:' % lb, 'for i := 0; i < 6; i++ {', '\tswitch {', '\tcase i == {0}:', '\t\tbreak %s' % lb, '\tcase i%2 == 0:', '\t\tcontinue %s' % lb, '\tdefault:', '\t\tif i == 3 {', '\t\t\tbreak', '\t\t}', '\t\t%sc += 10' % u, '\t}', '\t%sc++' % u, '}',
+                         'println("labelswitch", %sc)' % u], [self.index_of(env, None, 7)]))
+        elif k == 'map_misc_keys':
+            grp.decls.append((P + 'MK', 'type %sKp struct {\n\tv int32\n}' % P))
+            st.append(S(['%sf := map[float64]%s{}' % (u, t), '%sf[1.5] = {0}' % u, '%sf[-0.25] = {1}' % u, '%sf[1.5] += {2}' % u, '%sa, %sb := &%sKp{v: 1}, &%sKp{v: 1}' % (u, u, P, P), '%sp := map[*%sKp]%s{%sa: {0}}' % (u, P, t, u), '%sp[%sb] = {1}' % (u, u), '%sp[%sa] ^= {2}' % (u, u),
+                         '%si := map[interface{}]%s{}' % (u, t), '%si[int32(1)] = {0}' % u, '%si["s"] = {1}' % u, '%si[int32(1)] += {2}' % u, '%si[true] = {2}' % u,
+                         'println("misckeys", len(%sf), %sf[1.5], %sf[0], len(%sp), %sp[%sa], %sp[%sb], len(%si), %si[int32(1)], %si["s"], %si[int64(1)], %si[true])' % (u, u, u, u, u, u, u, u, u, u, u, u, u)], [T(), T(), T()]))
+        elif k == 'struct_conversion':
+            grp.decls.append((P + 'SC2', 'type %sA1 struct {\n\tx %s\n\ts string\n}\n\ntype %sA2 struct {\n\tx %s\n\ts string\n}' % (P, t, P, t)))
+            st.append(S(['%sa := %sA1{{0}, "cv"}' % (u, P), '%sb := %sA2(%sa)' % (u, P, u), '%sb.x += {1}' % u, '%sc := %sA1(%sb)' % (u, P, u), 'println("structconv", %sa.x, %sb.x, %sc.x, %sc.s, %sc == %sa)' % (u, u, u, u, u, u)], [T(), T()]))
         else:
             raise ValueError(name)
     st.append(S('%s ^= {0}' % pool_t, [T()]))
